@@ -5,6 +5,7 @@ from .common import tolist, Unchanged, exceeds
 from .c02 import weights
 
 LEAN = "PystogVerif.Props.C08"
+LEAN_EXTRA = ["PystogVerif.Props.C08All"]
 RSP, QSP = ["g", "G", "GK"], ["F", "S", "FK", "DCS"]
 ENTRIES = [f"FourierFilter.{a}_using_{b}" for a in RSP for b in QSP]
 RULE = ("one of the 12 variants at random, random r/Q grids (with/without 0), data, uncertainties (or None), cutoff between or on "
